@@ -1,7 +1,7 @@
 (* C17  The statements about the three-valued model in their final shape (used by Properties/C17.v). *)
 From Coq Require Import String List NArith Bool Lia Arith Permutation.
 Import ListNotations.
-Require Import Show Names SpecModel VMeaning MetaTable MetaBase MetaBaseFacts MetaShow MetaModel MetaFacts MetaModel3 MetaFacts3 MetaModels.
+Require Import Show Names SpecModel VMeaning MetaTable MetaBase MetaBaseFacts MetaShow MetaModel MetaFacts MetaModel3 MetaFacts3 MetaModels MetaHeap.
 Open Scope N_scope.
 Arguments N.eqb : simpl never.
 Arguments N.leb : simpl never.
@@ -71,6 +71,38 @@ Proof.
   - split; [intros [c X]; congruence|]. intros [k [c [R [F A]]]]. exfalso.
     assert (escapes3 O data = true) by (apply escapes3_iff; exists k, c; split; auto; now apply well_typed_crash_is_raise). congruence.
   - split; eauto 8.
+Qed.
+
+(* ------------------------------------------------------------------ the validation IS a sequence of attribute reads *)
+Fixpoint reads3_state (s : inst) (ks : list (list N)) : inst :=
+  match ks with [] => s | k :: t => reads3_state (fst (read3 O s k)) t end.
+Definition read_by_loop (mv : option nat) (k : list N) : bool := is_field k && match gate_of mv k with GOk => true | _ => false end.
+Lemma check_loop3_state mv ks : forall s errs s' es, check_loop3 O mv ks s errs = inl (s', es) ->
+  s' = reads3_state s (filter (read_by_loop mv) ks) /\ (length errs <= length es)%nat.
+Proof.
+  induction ks as [|k t IH]; intros s errs s' es H; cbn [check_loop3] in H; [inversion H; subst; cbn; auto|].
+  cbn [filter]. unfold read_by_loop at 1. destruct (is_field k); cbn [negb andb] in *.
+  - destruct (gate_of mv k).
+    + cbn [reads3_state]. destruct (read3 O s k) as [s1 r]. cbn [fst]. destruct r; [eapply IH; eauto| |discriminate].
+      apply IH in H as [H1 H2]. split; auto. rewrite app_length in H2. cbn in H2. lia.
+    + apply IH in H as [H1 H2]. split; auto. rewrite app_length in H2. cbn in H2. lia.
+    + discriminate.
+  - apply IH in H as [H1 H2]. split; auto. rewrite app_length in H2. cbn in H2. lia.
+Qed.
+(* from_raw(validate=True), when it succeeds, leaves the object in the state that the reads [validation_reads] leave a lazy object in:
+   metadata_version, then every present or required field that is not newer than the declared version, in sorted order *)
+Theorem validation_is_reads s : from_raw3 O true data = FOk s -> s = reads3_state (init data) (validation_reads O data).
+Proof.
+  unfold from_raw3, from_raw3_ord, validation_reads. cbn [negb reads3_state].
+  assert (RD : read3 O (init data) k_mv = read (two O) (init data) k_mv) by reflexivity.
+  assert (CM : compute3 O k_mv (lookup k_mv data) = mv_res (two O) data) by reflexivity.
+  rewrite CM. rewrite RD. unfold read. cbn [init cache lookup raw]. fold (mv_res (two O) data).
+  destruct (mv_res (two O) data) as [e|f|c] eqn:M; cbn [fst]; [| |discriminate].
+  - cbn [raw]. rewrite ftc_remove_mv.
+    destruct (check_loop3 _ _ _ _ _) as [[s2 es]|c] eqn:L; [|discriminate]. destruct es; [|discriminate]. intros H. inversion H; subst.
+    apply check_loop3_state in L as [L _]. exact L.
+  - destruct (check_loop3 _ _ _ _ _) as [[s2 es]|c] eqn:L; [|discriminate]. apply check_loop3_state in L as [_ L].
+    destruct es; [cbn in L; inversion L | discriminate].
 Qed.
 
 (* absent optional FIELD reads as None; a name that is not a field is an AttributeError *)
